@@ -15,6 +15,7 @@ CONSTANTS
   MaxFaults = 2
   Concurrent = TRUE
   WithRejects = FALSE
+  ExportOneIn = 1
 INVARIANTS NoViolation CacheCounterExact ChunksAbut DurableIsPrefix Export
 VIEW View
 ALIAS Alias
